@@ -909,6 +909,8 @@ pub(crate) fn add_generic_priv_sleep<W: Write, R, T>(
             if secs < 0.0 {
                 return xerr(ManagedXError::new("sleep time must be non-negative", rt)?);
             }
+            #[cfg(xray_verif)]
+            crate::verif::on_effect("sleep");
             thread::sleep(Duration::from_secs_f64(secs));
 
             Ok(a1.into())
